@@ -58,3 +58,8 @@ Print Assumptions C18_dc_blocker_reset_is_new.
 Theorem C18_agc_reset_is_new : forall bw lo hi ops, agc_reset (fst (agc_run (agc_new bw lo hi) ops)) = agc_new bw lo hi.
 Proof. exact agc_reset_is_new. Qed.
 Print Assumptions C18_agc_reset_is_new.
+
+From Sameold Require Import Proofs.TimingP.
+Theorem C18_timing_loop_reset_is_new : forall ins l, tloop_reset (fst (tloop_run l ins)) = tloop_reset l.
+Proof. exact tloop_reset_is_new. Qed.
+Print Assumptions C18_timing_loop_reset_is_new.
